@@ -1007,6 +1007,65 @@ def run_files(tier, seed, R):
 
 # ---------------------------------------------------------------- saver coverage (exhaustive over the class universe)
 
+def run_labels(tier, seed, R):
+    """labels are read back as they were written: plain (ungrouped) subsets of different datasets carrying the same label, datasets, attributes
+    and subset groups with equal labels, also when the same session text is loaded twice in one process"""
+    from glue.core import Data, DataCollection
+    from glue.core.state import GlueSerializer, GlueUnSerializer
+
+    def build(n_sets, with_group):
+        ds = [Data(x=np.arange(5.) + i, label='same-name' if i < 2 else 'other') for i in range(n_sets)]
+        # plain subsets inside a collection are converted to subset groups on load (by design, with a warning): they are saved here as
+        # a plain list of datasets; groups in a collection
+        dc = DataCollection(ds) if with_group else ds
+        for i, d in enumerate(ds):
+            if with_group:
+                break
+            d.new_subset(subset=d.id['x'] > i + 1, label='hot')
+            d.new_subset(subset=d.id['x'] < i + 1, label='hot')
+            d.new_subset(subset=d.id['x'] > 2, label='cold')
+        if with_group:
+            dc.new_subset_group('hot', ds[0].id['x'] > 0)
+            dc.new_subset_group('hot', ds[0].id['x'] > 3)
+        return dc
+
+    def labels(dc):
+        return [(d.label, [c.label for c in d.main_components], [s.label for s in d.subsets]) for d in dc] + [[g.label for g in getattr(dc, 'subset_groups', [])]]
+    for n_sets in (1, 2, 3):
+        for with_group in (False, True):
+            dc = build(n_sets, with_group)
+            want = labels(dc)
+            R.count(('labels', n_sets, with_group), 'labels')
+            try:
+                text = GlueSerializer(dc).dumps()
+                got = [labels(GlueUnSerializer.loads(text).object('__main__')) for _ in range(2)]
+            except Exception as e:
+                R.fail("labels|exception:%s" % type(e).__name__, "%d datasets with equally labelled subsets%s: %s: %s" % (n_sets, ' and groups' if with_group else '', type(e).__name__, e),
+                       "from bounded.c02_session import replay_labels\nsys.exit(replay_labels())\n")
+                continue
+            for k, g in enumerate(got):
+                if g != want:
+                    R.fail("labels|%s" % ('first-load' if k == 0 else 'second-load'),
+                           "%d datasets with equally labelled plain subsets%s, %s load of the saved text: labels %r, saved %r" % (n_sets, ' and groups' if with_group else '', 'first' if k == 0 else 'second', g, want),
+                           "from bounded.c02_session import replay_labels\nsys.exit(replay_labels())\n")
+                    break
+
+
+def replay_labels():
+    class _R:
+        bad = 0
+
+        def count(self, *a):
+            pass
+
+        def fail(self, sig, detail, code):
+            print(sig, detail)
+            self.bad += 1
+    r = _R()
+    run_labels('quick', 0, r)
+    return 1 if r.bad else 0
+
+
 def run_saver_coverage(R, covered):
     """For every class of the universe: resolve the saver as the real MRO dispatch does; a class that has its own constructor but
     inherits its saver must have a behavioural round-trip case (names in `covered`)."""
@@ -1066,6 +1125,7 @@ def _run(tier, seed, R):
     covered = set()
     run_selections(tier, seed, R, covered)
     run_links(tier, seed, R, covered)
+    run_labels(tier, seed, R)
     run_saver_coverage(R, covered)
     run_joins(tier, seed, R)
     run_coordinates(tier, seed, R)
